@@ -396,7 +396,16 @@ def run(r):
         r.hist["result"]["ok" if impl.startswith("ok:") else impl.split(">")[0][:40]] += 1
         r.hist["detail"][detail[:40]] += 1
         if model is not None:
-            c2, m = model[i].split("\t")
+            c2, m, lean_spec = model[i].split("\t")
+            if lean_spec != "n/a":
+                # the case lies in the fragment of `blocks_refine_spec`: the Lean spec itself must
+                # agree with the engine and with the Python reading of the statement
+                r.hist["oracle"]["core-fragment (Lean spec evaluated)"] += 1
+                if lean_spec != impl:
+                    r.oracle_failure(case, f"Lean specRender gives {lean_spec[:300]} but the engine {impl[:300]}", "lean-spec:" + fam)
+                py = spec_result(parse_case(case)[1])
+                if py is not None and (py.startswith("ok:") or lean_spec.startswith("ok:")) and py != lean_spec:
+                    r.broken.append(f"Lean spec and Python spec disagree on {case[:200]}: {lean_spec[:200]} vs {py[:200]}")
             if m.startswith("bad-case") or "UNSUPPORTED" in m:
                 r.broken.append(f"model cannot evaluate generated case {case[:200]}: {m}")
             elif impl != m:
@@ -418,6 +427,7 @@ def replay(r, path):
         last = out.strip().splitlines()[-1] if out.strip() else ""
         model = r.driver("drive_c06", case + "\n")
         print("model:", model[0].split("\t")[1] if model else None)
+        print("lean spec:", model[0].split("\t")[2] if model else None)
         print("spec :", spec_result(parse_case(case)[1]))
         print("engine:", last.split("\t")[1] if "\t" in last else last)
     return 0
